@@ -143,7 +143,7 @@ theorem SCov.mono {ov acc g s s' v} (hle : SLe s s') (h : SCov ov acc g s v) : S
   · exact Or.inr (Or.inr (Or.inr (Or.inr ⟨o, hle.2.2.2.2 o ho, hi⟩)))
 
 /-- provenance of the categories: everything comes from a member satisfying `Q` -/
-def SProv (Q : Ty → Prop) (reg : StrRegistry) (s : Split) : Prop :=
+def SProv (Q : Ty → Prop) (_reg : StrRegistry) (s : Split) : Prop :=
   (∀ o ∈ s.other, Q o) ∧ (∀ fs ∈ s.toMerge, Q (.obj fs)) ∧ (∀ x ∈ s.lists, Q (.list x)) ∧
   (∀ x ∈ s.dicts, Q (.dict x)) ∧
   (∀ st ∈ s.strTypes, st = .str ∨ ∃ k, st = .ser k ∧ Q st)
